@@ -113,6 +113,124 @@ def lock_fail_case(item):
     return res_
 
 
+def nested_tree(seed):
+    """Random tree of scripts that request their children with a nested `redo`, `redo -k` or `redo-ifchange`."""
+    import random
+    rnd = random.Random('c05-nested-%s' % (seed,))
+    nodes = {}          # name -> dict(kind='leaf'|'inner', fail=bool, call=..., kids=[...])
+    cnt = [0]
+
+    def mk(depth):
+        name = 'n%d' % cnt[0]
+        cnt[0] += 1
+        if depth >= 3 or (depth > 0 and rnd.random() < 0.55) or cnt[0] > 14:
+            nodes[name] = dict(kind='leaf', fail=rnd.random() < 0.3)
+        else:
+            nodes[name] = dict(kind='inner', call=rnd.choice(['redo', 'redo', 'redo -k', 'redo-ifchange']), kids=[])
+            for _ in range(rnd.randint(2, 4)):
+                nodes[name]['kids'].append(mk(depth + 1))
+        return name
+    tops = [mk(0) for _ in range(rnd.choice([1, 1, 2]))]
+    if not any(n['kind'] == 'leaf' and n['fail'] for n in nodes.values()):
+        leaves = [k for k, n in nodes.items() if n['kind'] == 'leaf']
+        nodes[rnd.choice(leaves)]['fail'] = True
+    j = rnd.choice([1, 1, 1, 2, 3])
+    keep = rnd.random() < 0.6
+    return nodes, tops, j, keep
+
+
+def nested_expect(nodes, tops, j, keep):
+    """-> (must, may, fails): scripts that have to run / may run, and whether the command has to fail."""
+    must, may = set(), set()
+
+    def ev(name, keep_env, certain):
+        (must if certain else may).add(name)
+        may.add(name)
+        n = nodes[name]
+        if n['kind'] == 'leaf':
+            return n['fail']
+        k = keep_env or n['call'] == 'redo -k'
+        failed = False
+        sure = certain
+        for c in n['kids']:
+            if failed and not k:
+                if j == 1:
+                    break
+                sure = False          # started before the failure was known, or not at all: schedule-dependent
+            if ev(c, k, sure):
+                failed = True
+        return failed
+    failed = False
+    sure = True
+    for t in tops:
+        if failed and not keep:
+            if j == 1:
+                break
+            sure = False
+        if ev(t, keep, sure):
+            failed = True
+    return must, may, failed
+
+
+def nested_case(item):
+    """--keep-going is a property of the whole run: a nested `redo` inside a script inherits it (and a nested `redo -k` turns it
+    on for its own subtree).  Every requested target that does not depend on a failed one is built; without it nothing is started
+    after the first known failure."""
+    import re
+    from .. import common, scen
+    seed = item[1]
+    nodes, tops, j, keep = nested_tree(seed)
+    files = {}
+    for name, n in nodes.items():
+        if n['kind'] == 'leaf':
+            files[name + '.do'] = (scen.TRACE_HDR + 'echo "S $1 $$ $PPID" >&9\nsleep 0.0%d\n' % (seed % 7) +
+                                   ('echo "E $1 $$ 5" >&9\nexit 5\n' if n['fail'] else 'echo "leaf $1" > "$3"\necho "E $1 $$ 0" >&9\n'))
+        else:
+            files[name + '.do'] = (scen.TRACE_HDR + 'echo "S $1 $$ $PPID" >&9\nrc=0\n%s %s || rc=$?\necho "RC $1 $$ $rc" >&9\n'
+                                   '[ $rc = 0 ] || { echo "E $1 $$ $rc" >&9; exit $rc; }\necho "node $1" > "$3"\necho "E $1 $$ 0" >&9\n'
+                                   % (n['call'], ' '.join(n['kids'])))
+    must, may, fails = nested_expect(nodes, tops, j, keep)
+    pj = scen.Project(files, 'c05n')
+    anoms = []
+    argv = ['redo'] + (['-j%d' % j] if j > 1 else []) + (['-k'] if keep else []) + tops
+    try:
+        r, _ = pj.run(argv, timeout=90)
+        if r.status != 'exit':
+            return dict(verdict='inconclusive', why='nested-redo scenario did not end (%s)' % r.status, sample=dict(item=list(item)))
+        tr = pj.trace_text()
+        ran = {}
+        for m_ in re.finditer(r'^S (\S+) ', tr, re.M):
+            ran[m_.group(1)] = ran.get(m_.group(1), 0) + 1
+        for n in sorted(must - set(ran)):
+            anoms.append(dict(key='keep-going-skipped-target:nested-redo' if (keep or any(x['kind'] == 'inner' and x['call'] == 'redo -k' for x in nodes.values())) else 'underbuild:nested-redo',
+                              what='%s: %s was never started although it does not depend on a failed target (ran: %s)' % (argv, n, sorted(ran))))
+        for n in sorted(set(ran) - may):
+            anoms.append(dict(key='started-after-known-failure:nested-redo', what='%s: %s was started after a failure was known to the process that requested it (ran: %s)' % (argv, n, sorted(ran))))
+        for n, c in ran.items():
+            if c > 1:
+                anoms.append(dict(key='multi:nested-redo', what='%s ran %d times' % (n, c)))
+        if (r.rc != 0) != fails:
+            anoms.append(dict(key='exit:%s:rc=%s:nested-redo' % ('expected-failure' if fails else 'expected-ok', r.rc), what='%s exits %s' % (argv, r.rc)))
+        for m_ in re.finditer(r'^RC (\S+) \d+ (\d+)', tr, re.M):
+            n = nodes.get(m_.group(1))
+            if n and m_.group(2) == '0':
+                bad = [c for c in n['kids'] if re.search(r'^E %s \d+ [1-9]' % re.escape(c), tr, re.M)]
+                if bad:
+                    anoms.append(dict(key='swallowed-failure:nested-redo', what='%s inside %s exited 0 although %s failed' % (n['call'], m_.group(1), bad)))
+    finally:
+        pj.close()
+    shape = common.shash([sorted((k, v.get('call'), v.get('fail'), tuple(v.get('kids', ()))) for k, v in nodes.items()), tops, j, keep])
+    res_ = dict(verdict='violated' if anoms else 'held', nontrivial=len(may) >= 4 and fails, shape=shape,
+                sample=dict(kind='nested-redo-tree', argv=argv, scripts=len(nodes), must=len(must), may=len(may)),
+                obs=dict(nested_redo_trees=1, nested_redo_scripts_run=sum(ran.values()) if not anoms or ran else 0),
+                sets=dict(rebuild_reasons=['nested-redo:' + ('keep' if keep else 'nokeep') + (':j%d' % j)]))
+    if anoms:
+        seen = set()
+        res_['violations'] = [a for a in anoms if not (a['key'] in seen or seen.add(a['key']))]
+        res_['replay'] = dict(kind='nested', item=list(item))
+    return res_
+
+
 class Dispatch:
     def __init__(self, hist):
         self.hist = hist
@@ -120,6 +238,8 @@ class Dispatch:
     def __call__(self, item, **kw):
         if isinstance(item, (tuple, list)) and item and item[0] == 'lockfail':
             return lock_fail_case(tuple(item))
+        if isinstance(item, (tuple, list)) and item and item[0] == 'nested':
+            return nested_case(tuple(item))
         return self.hist(item, **kw)
 
 
@@ -132,6 +252,9 @@ RULE = ('programs with 1-4 nodes whose failure is switched by a declared flag so
         '(RC records) vs failures already recorded in the trace; executed multiset vs model (failed target once per run, '
         'retried next run, dependents re-executed); contents of everything the model says was brought up to date, also after a '
         'failing --keep-going command; hook monitor: no job_start after fail_known in one process without --keep-going. '
+        'Nested-redo layer: random trees of scripts that request their children with a nested `redo`, `redo -k` or redo-ifchange, under a '
+        'top-level redo with/without -k at -j1..3: started scripts vs must/may sets (keep-going is inherited through the run and switched on by a nested -k; '
+        'without it nothing is started after the first failure known to the requesting process), exit status, nested exit statuses. '
         'Contention layer: `redo L F` / `redo -jN F L` (with and without -k) while another invocation holds L: L must not be built after F failed, and must be with -k. '
         'Non-trivial: a failing command followed later by a successful command that ran scripts. Distinct: (graph shape, op sequence).')
 ASSUME = ['which siblings were already started when a failure becomes known is schedule-dependent: guided by the observation (must <= observed <= may)',
@@ -145,12 +268,25 @@ def main(tier):
         for order, j in ((('L', 'F'), 1), (('F', 'L'), 2), (('L', 'G', 'F'), 1), (('G', 'F', 'L'), 3)):
             for keep in (False, True):
                 extra.append(('lockfail', order, j, keep, rep))
+    import os
+    base = int(os.environ.get('VERIF_SEED', '1')) * 100000
+    extra += [('nested', base + i) for i in range(40 if tier == 'quick' else 1500)]
     return histcheck.run(PROP, tier, Dispatch(CASE), extra + histcheck.seeds_for(PROP, tier, n), 'exploration', RULE, ASSUME, budget, floor=20)
 
 
 def replay(path):
     import json
     d = json.load(open(path))
+    if d['replay'].get('kind') == 'nested':
+        from .. import common
+        common.ensure_built()
+        r = nested_case(tuple(d['replay']['item']))
+        print(r.get('verdict'), r.get('violations'))
+        common.cleanup_scratch()
+        if r.get('verdict') == 'violated':
+            print('VIOLATION property=%s replay=%s' % (PROP, path))
+            return 1
+        return 0
     if d['replay'].get('kind') == 'lockfail':
         from .. import common
         common.ensure_built()
